@@ -88,7 +88,8 @@ class Gen:
 
     # ---------------------------------------------------------------- obtaining variables
     def pick(self, scope, chi, ty):
-        c = [v for v in scope if v["chi"] == chi and v["ty"] == ty]
+        # object arguments of a method are never passed on or invoked (no self-application, hence termination)
+        c = [v for v in scope if v["chi"] == chi and v["ty"] == ty and not v.get("taint")]
         return self.r.choice(c) if c else None
 
     def with_var(self, scope, chi, ty, budget, k, reuse=0.75):
@@ -115,6 +116,9 @@ class Gen:
         self.cdepth += 1
         for x in decl["xtors"]:
             binders = [self.fresh(a["name"], a["chi"], a["ty"]) for a in x["args"]]
+            for b_ in binders:
+                if b_["chi"] != "ext":
+                    b_["taint"] = True
             body = self.stmt(scope + binders, min(share, 6) if self.cdepth <= 2 else 0, in_method=True)
             clauses.append({"xtor": x["name"], "ctx": binders, "body": body})
         self.cdepth -= 1
@@ -145,7 +149,7 @@ class Gen:
                                        lambda sc, args: self.push({"k": "call", "label": d["name"], "args": [dict(cnt)] + args}))
                 return self.push({"k": "lit", "var": cnt, "lit": limbs(self.r.choice([0, 1, 2, 3, 4])), "next": inner})
             return self.with_args(scope, d["ctx"], budget, lambda sc, args: self.push({"k": "call", "label": d["name"], "args": args}))
-        clos = [v for v in scope if v["chi"] == "cns"]
+        clos = [v for v in scope if v["chi"] == "cns" and not v.get("taint")]
         if clos and r < 0.85:
             v = self.r.choice(clos)
             x = self.r.choice(self.type_decl(v["ty"])["xtors"])
@@ -218,6 +222,10 @@ class Gen:
             share = (budget - 1) // len(decl["xtors"])
             for x in decl["xtors"]:
                 binders = [self.fresh(a["name"], a["chi"], a["ty"]) for a in x["args"]]
+                if v.get("taint"):
+                    for b_ in binders:
+                        if b_["chi"] != "ext":
+                            b_["taint"] = True
                 clauses.append({"xtor": x["name"], "ctx": binders, "body": self.stmt(scope + binders, share, in_method)})
             return self.push({"k": "switch", "var": v["id"], "ty": v["ty"], "clauses": clauses})
         if r < 0.94:
@@ -282,7 +290,19 @@ class Gen:
                     body = self.push({"k": "lit", "var": nv, "lit": limbs(self.lit_value()), "next": body})
                 d["body"] = body
         defs = [{"name": d["name"], "ctx": d["ctx"], "body": d["body"]} for d in self.defs]
-        return {"defs": defs, "types": self.types, "nodes": self.nodes, "max_id": self.next_id}
+        import json as _j
+        clean = _j.loads(_j.dumps({"defs": defs, "types": self.types, "nodes": self.nodes, "max_id": self.next_id}))
+
+        def strip(o):
+            if isinstance(o, dict):
+                o.pop("taint", None)
+                for v_ in o.values():
+                    strip(v_)
+            elif isinstance(o, list):
+                for v_ in o:
+                    strip(v_)
+        strip(clean)
+        return clean
 
 
 def loop_arg(rng):
